@@ -81,7 +81,7 @@ func runL1GateCase(e *l1Env, bc *blobCase, a *alteration, store string, script [
 		// VerifyTOC is immediate while the prefetch walk needs time: when the script wants
 		// prefetch points first, start the verification only once they have passed
 		// (harness-level sequencing of two independent calls, as fs.Mount's goroutines allow).
-		g.waitNext(firstV(script), gateTimeout)
+		startVerifyWhenScriptAllows(g, script)
 		x, err := o.vr.VerifyTOC(digest.Digest(a.Pin))
 		verr = err
 		if err == nil {
@@ -158,6 +158,25 @@ func runL1GateCase(e *l1Env, bc *blobCase, a *alteration, store string, script [
 			r.Count("l1gate_cache_values_scanned", len(vals))
 		}
 	}
+}
+
+// startVerifyWhenScriptAllows delays the START of the verification call (two independent
+// calls of fs.Mount's goroutines; nothing inside the code under test is touched):
+//   - the script parks prefetch inside its read lock (RL) until verifyTOC points have passed:
+//     start once prefetch has arrived at RL, i.e. has passed the prohibit test. On the
+//     unchanged tree VerifyTOC then blocks on the write lock and the script times out
+//     (infeasible_order); a tree without the lock realises it.
+//   - otherwise: start once the prefetch points scripted before the first verifyTOC point
+//     have passed.
+func startVerifyWhenScriptAllows(g *gate, script []string) {
+	fv := firstV(script)
+	for i, p := range script {
+		if p == pRL && i > fv {
+			g.waitHit(pRL, gateTimeout)
+			return
+		}
+	}
+	g.waitNext(fv, gateTimeout)
 }
 
 // firstV is the index of the first verifyTOC point of the script.
